@@ -266,113 +266,112 @@ def _known_variants_at_end(stmts, known):
     return known
 
 
+def _chain_from(blocks, start, limit=5):
+    """Blocks reached from `start` by following unconditional jumps: [start, next, ..] (stops at the first non-goto)."""
+    out = [start]
+    seen = {start}
+    while len(out) < limit:
+        t = blocks[out[-1]]["term"]
+        if t["k"] != "goto" or t["t"] in seen or blocks[t["t"]].get("cleanup"):
+            break
+        out.append(t["t"])
+        seen.add(t["t"])
+    return out
+
+
+def _switch_pattern(S):
+    """(scrutinee local, adt, {variant name: value}, switch terminator) if S ends in `d = discriminant(x); switchInt(d)`."""
+    t = S["term"]
+    if t["k"] != "switch" or not S["stmts"]:
+        return None
+    d = t["discr"]
+    if d.get("k") not in ("copy", "move") or d.get("p"):
+        return None
+    last = S["stmts"][-1]
+    if not (last["k"] == "assign" and last["place"]["l"] == d["l"] and not last["place"]["p"] and last["rv"]["k"] == "discr"
+            and not last["rv"]["place"]["p"] and last["rv"].get("variants")):
+        return None
+    return last["rv"]["place"]["l"], last["rv"].get("adt"), {nm: v for v, nm in last["rv"]["variants"]}, t
+
+
+def _target_of(t, v):
+    for tv, tb in t["targets"]:
+        if tv == v:
+            return tb
+    return t["otherwise"]
+
+
 def thread_known_variants(body):
-    """Tail duplication + folding: a block that ends by jumping to `S: ...; d = discriminant(x); switchInt(d)` while it is
-    known (from an aggregate or a pass-through arm built in that block) which variant x has there gets its own copy of S's
-    statements followed by a jump to the one feasible target.  Removes only infeasible edges."""
+    """Tail duplication + folding.  From a block P, follow unconditional jumps; if they lead to
+        S: ..; d = discriminant(x); switchInt(d)                              (a case analysis on x), or to
+        C: ..; cf = Try::branch(x) -> S,  S: d = discriminant(cf); switchInt(d)   (`x?`)
+    and the statements along the way determine which variant x has (it was built as an aggregate of that variant, or is the
+    pass-through arm of a normalised combinator), P gets its own copy of those blocks ending in a jump to the one feasible
+    target.  Calls are kept; only infeasible edges disappear."""
     n = 0
     blocks = body["blocks"]
     changed = True
     rounds = 0
-    while changed and rounds < 60 and len(blocks) < 4000:
+    while changed and rounds < 80 and len(blocks) < 4000:
         changed = False
         rounds += 1
-        for si in range(len(blocks)):
-            S = blocks[si]
-            t = S["term"]
-            if t["k"] != "switch" or S.get("cleanup") or not S["stmts"]:
+        for pi in range(len(blocks)):
+            P = blocks[pi]
+            if P["term"]["k"] != "goto" or P.get("cleanup"):
                 continue
-            d = t["discr"]
-            if d.get("k") not in ("copy", "move") or d.get("p"):
+            chain = _chain_from(blocks, P["term"]["t"])
+            known = _known_variants_at_end(P["stmts"], {})
+            if not known:
                 continue
-            last = S["stmts"][-1]
-            if not (last["k"] == "assign" and last["place"]["l"] == d["l"] and not last["place"]["p"] and last["rv"]["k"] == "discr"
-                    and last["rv"].get("adt") in VARIANTS and not last["rv"]["place"]["p"]):
+            hit = None
+            for ci, bi in enumerate(chain):
+                B = blocks[bi]
+                pat = _switch_pattern(B)
+                if pat is not None and pat[1] in VARIANTS:
+                    kn = _known_variants_at_end(B["stmts"][:-1], known)
+                    x, adt, names, st = pat
+                    if x in kn and kn[x][0] == adt and kn[x][1] in names:
+                        hit = ("switch", ci, _target_of(st, names[kn[x][1]]), kn[x][1])
+                    break
+                t = B["term"]
+                if t["k"] == "call" and t["callee"] == "std::ops::Try::branch" and t.get("t") is not None and t["args"] and \
+                        t["args"][0].get("k") in ("copy", "move") and not t["args"][0].get("p") and not t["dest"]["p"]:
+                    kn = _known_variants_at_end(B["stmts"], known)
+                    S = blocks[t["t"]]
+                    pat = _switch_pattern(S)
+                    if pat is not None and pat[0] == t["dest"]["l"] and "Continue" in pat[2] and t["args"][0]["l"] in kn:
+                        variant = kn[t["args"][0]["l"]][1]
+                        arm = "Continue" if variant in ("Ok", "Some") else "Break"
+                        hit = ("try", ci, _target_of(pat[3], pat[2][arm]), arm)
+                    break
+                known = _known_variants_at_end(B["stmts"], known)
+                if B["term"]["k"] != "goto":
+                    break
+            if hit is None:
                 continue
-            x = last["rv"]["place"]["l"]
-            adt = last["rv"]["adt"]
-            idx = {name: v for v, name in VARIANTS[adt]}
-            for pi in range(len(blocks)):
-                P = blocks[pi]
-                if pi == si or P["term"]["k"] != "goto" or P["term"]["t"] != si:
-                    continue
-                kn = _known_variants_at_end(S["stmts"][:-1], _known_variants_at_end(P["stmts"], {}))
-                if x not in kn or kn[x][0] != adt:
-                    continue
-                v = idx[kn[x][1]]
-                dest = t["otherwise"]
-                for tv, tb in t["targets"]:
-                    if tv == v:
-                        dest = tb
-                        break
-                blocks.append({"stmts": copy.deepcopy(S["stmts"]), "term": {"k": "goto", "t": dest, "span": t.get("span"), "threaded_variant": kn[x][1]},
-                               "cleanup": False, "synthetic": True})
-                P["term"] = dict(P["term"])
-                P["term"]["t"] = len(blocks) - 1
-                n += 1
-                changed = True
-    n += _thread_try(body)
-    return n
-
-
-CONTROL_FLOW = "std::ops::ControlFlow"
-
-
-def _thread_try(body):
-    """The same for `x?`: a block that jumps to `C: ..; cf = Try::branch(x) -> S` with `S: d = discriminant(cf); switchInt(d)`
-    while x is known to be Ok/Some (resp. Err/None) there gets its own copy of C and S ending in a jump to the Continue
-    (resp. Break) target.  The call itself is kept; only the infeasible edge disappears."""
-    n = 0
-    blocks = body["blocks"]
-    changed = True
-    rounds = 0
-    while changed and rounds < 60 and len(blocks) < 4000:
-        changed = False
-        rounds += 1
-        for ci in range(len(blocks)):
-            C = blocks[ci]
-            t = C["term"]
-            if t["k"] != "call" or t["callee"] != "std::ops::Try::branch" or C.get("cleanup") or t.get("t") is None or C.get("threaded_try"):
-                continue
-            a = t["args"][0] if t["args"] else None
-            if not a or a.get("k") not in ("copy", "move") or a.get("p") or t["dest"]["p"]:
-                continue
-            S = blocks[t["t"]]
-            st = S["term"]
-            if st["k"] != "switch" or not S["stmts"]:
-                continue
-            last = S["stmts"][-1]
-            if not (last["k"] == "assign" and last["rv"]["k"] == "discr" and not last["rv"]["place"]["p"] and last["rv"]["place"]["l"] == t["dest"]["l"]
-                    and st["discr"].get("l") == last["place"]["l"]):
-                continue
-            names = {nm: v for v, nm in last["rv"].get("variants", [])}
-            if "Continue" not in names or "Break" not in names:
-                continue
-            for pi in range(len(blocks)):
-                P = blocks[pi]
-                if pi == ci or P["term"]["k"] != "goto" or P["term"]["t"] != ci:
-                    continue
-                kn = _known_variants_at_end(C["stmts"], _known_variants_at_end(P["stmts"], {}))
-                if a["l"] not in kn:
-                    continue
-                variant = kn[a["l"]][1]
-                arm = "Continue" if variant in ("Ok", "Some") else "Break"
-                v = names[arm]
-                dest = st["otherwise"]
-                for tv, tb in st["targets"]:
-                    if tv == v:
-                        dest = tb
-                        break
-                blocks.append({"stmts": copy.deepcopy(S["stmts"]), "term": {"k": "goto", "t": dest, "span": st.get("span"), "threaded_variant": arm},
-                               "cleanup": False, "synthetic": True})
-                s2 = len(blocks) - 1
-                t2 = copy.deepcopy(t)
-                t2["t"] = s2
-                blocks.append({"stmts": copy.deepcopy(C["stmts"]), "term": t2, "cleanup": False, "synthetic": True, "threaded_try": True})
-                P["term"] = dict(P["term"])
-                P["term"]["t"] = len(blocks) - 1
-                n += 1
-                changed = True
+            kind, ci, dest, label = hit
+            # copy chain[0..ci] for P
+            first_new = len(blocks)
+            for j in range(ci + 1):
+                src = blocks[chain[j]]
+                last = j == ci
+                if not last:
+                    blocks.append({"stmts": copy.deepcopy(src["stmts"]), "term": {"k": "goto", "t": first_new + j + 1, "span": src["term"].get("span")},
+                                   "cleanup": False, "synthetic": True})
+                elif kind == "switch":
+                    blocks.append({"stmts": copy.deepcopy(src["stmts"]), "term": {"k": "goto", "t": dest, "span": src["term"].get("span"), "threaded_variant": label},
+                                   "cleanup": False, "synthetic": True})
+                else:
+                    S = blocks[src["term"]["t"]]
+                    t2 = copy.deepcopy(src["term"])
+                    t2["t"] = first_new + ci + 1
+                    blocks.append({"stmts": copy.deepcopy(src["stmts"]), "term": t2, "cleanup": False, "synthetic": True, "threaded_try": True})
+                    blocks.append({"stmts": copy.deepcopy(S["stmts"]), "term": {"k": "goto", "t": dest, "span": S["term"].get("span"), "threaded_variant": label},
+                                   "cleanup": False, "synthetic": True})
+            P["term"] = dict(P["term"])
+            P["term"]["t"] = first_new
+            n += 1
+            changed = True
     return n
 
 
@@ -404,7 +403,7 @@ def normalise_combinators(bodies, adts=None, cli=False):
                         n += 1
                         changed = True
                         break
-        if b.get("normalised_combinators"):
+        if b.get("normalised_combinators") or b.get("inlined"):
             thread_known_variants(b)
         if b["kind"] == "closure" and b["def"] in closures and b.get("normalised_combinators"):
             closures[b["def"]] = copy.deepcopy(b)
